@@ -10,7 +10,7 @@ import (
 
 func init() {
 	register("C04", checkC04,
-		"Must-pass-through and converter-discipline conditions for arguments: (GATE) every resolver invocation receives the argument builder's map and is dominated by len(errors)==0 of that same call; the reflection arm must build its reflected arguments from that map; (ARMS) in the argument substitution every value returned is the result of CoerceIn of the declared type, or is raw only on paths where no declared type exists; (REQ) required-argument scan; (VARS) a caller-supplied variable enters the operation's variable map only as the result of CoerceIn of the variable's declared type and a coercion error returns before any resolver runs; (NARROW) every narrowing numeric conversion in an input coercer is range-guarded or round-trip checked; (INPUT) the input-object coercer rejects undeclared keys before use, fills defaults and rejects missing non-null fields.",
+		"Must-pass-through and converter-discipline conditions for arguments: (GATE) every resolver invocation receives the argument builder's map and is dominated by len(errors)==0 of that same call; the reflection arm must build its reflected arguments from that map; (ARMS) in the argument substitution every value returned is the result of CoerceIn of the declared type, or is raw only on paths where no declared type exists; (REQ) required-argument scan; (VARS) a caller-supplied variable enters the operation's variable map only as the result of CoerceIn of the variable's declared type and a coercion error returns before any resolver runs; (NARROW) every narrowing numeric conversion in an input coercer is range-guarded or round-trip checked; (INPUT) the input-object coercer rejects undeclared keys before use, fills defaults as the field's declared type coerces them and rejects missing non-null fields.",
 		"That the coerced value denotes the same value for every input (boundary arithmetic beyond range guards, Time parsing, float32 precision) - arithmetic on runtime values.")
 }
 
@@ -20,7 +20,7 @@ func checkC04(c *Ctx, r *Report) {
 	r.rule("C04.REQ", "required-argument scan (shared with C10.REQ)")
 	r.rule("C04.VARS", "opVars[name] = v only for v = vd.Default or CoerceIn(vars[name]) of vd.Type, under err == nil")
 	r.rule("C04.NARROW", "narrowing numeric Convert in CoerceIn bodies (and helpers) is dominated by bounds comparisons of the source or round-trip checked")
-	r.rule("C04.INPUT", "(*Input).CoerceIn: undeclared-key rejection loop dominates the field loop; defaults filled; missing non-null field rejected")
+	r.rule("C04.INPUT", "(*Input).CoerceIn: undeclared-key rejection loop dominates the field loop; defaults filled, each as CoerceIn of the field's type returns it; missing non-null field rejected")
 	a := c.anchors()
 	if !requireAnchors(r, "C04.GATE", a) {
 		return
@@ -607,43 +607,125 @@ func c04Input(c *Ctx, r *Report) {
 	r.check("C04.INPUT", fnName(fn)+": a key the input type does not declare is rejected", firstPos(pU, fn.Pos()), undeclared, "no error return under a failed declared-field lookup")
 	r.check("C04.INPUT", fnName(fn)+": undeclared-key rejection precedes any use of the object", keyLoop.Pos(), keyLoop.Block().Dominates(fieldLoop.Block()), "the key check must dominate the field loop")
 	r.check("C04.INPUT", fnName(fn)+": a missing non-null field without default is rejected", firstPos(pM, fn.Pos()), missingReq, "no error return guarded by (no value, no default, *NonNull type)")
-	// defaults filled
+	// defaults filled, and what is filled in is the default as the field's declared type coerces it
 	filled := false
 	var pF token.Pos
+	type sinkState struct {
+		pos  token.Pos
+		bad  string
+		seen bool
+	}
+	sinks := map[string]*sinkState{"result map": {}, "registered Go value": {}}
 	for _, b := range fn.Blocks {
 		for _, in := range b.Instrs {
 			var val ssa.Value
+			sink := ""
 			switch t := in.(type) {
 			case *ssa.MapUpdate:
-				val = t.Value
+				val, sink = t.Value, "result map"
 			case *ssa.Call:
 				if cal := t.Call.StaticCallee(); cal != nil && c.inPkg(cal) && len(t.Call.Args) > 0 {
-					val = t.Call.Args[len(t.Call.Args)-1]
+					val, sink = t.Call.Args[len(t.Call.Args)-1], "registered Go value"
 				} else if _, isB := t.Call.Value.(*ssa.Builtin); cal == nil && !isB && !t.Call.IsInvoke() && len(t.Call.Args) > 0 {
 					// a local function value (the store decided once before the loop: into the map or into the Go value)
-					val = t.Call.Args[len(t.Call.Args)-1]
+					val, sink = t.Call.Args[len(t.Call.Args)-1], "result map"
 				}
 			}
 			if val == nil {
 				continue
 			}
-			if _, _, f, ok := loadOfField(val); ok && f == "Default" {
-				ok2 := hasGuard(b, func(g guard) bool {
-					v, eq, ok := nilCmp(g.cond)
-					if !ok || eq != g.val {
-						return false
-					}
-					_, isL := v.(*ssa.Lookup)
-					return isL
-				})
-				if ok2 {
-					filled = true
-					pF = in.Pos()
+			absent := hasGuard(b, func(g guard) bool {
+				v, eq, ok := nilCmp(g.cond)
+				if !ok || eq != g.val {
+					return false
 				}
+				_, isL := v.(*ssa.Lookup)
+				return isL
+			})
+			if !absent {
+				continue
+			}
+			leaves, _ := phiLeaves(val)
+			fromDefault := false
+			bad := ""
+			for _, lf := range leaves {
+				if _, _, f, ok := loadOfField(lf.val); ok && f == "Default" {
+					fromDefault = true
+					// raw: only where the field's type is no InCoercer
+					var gs []guard
+					if lf.pred != nil {
+						gs = edgeGuards(lf.pred, lf.phi.Block())
+					} else {
+						gs = blockGuards(b)
+					}
+					noCoercer := false
+					for _, g := range gs {
+						if f, ok := assertFactOf(g); ok && !f.holds && derefNamed(f.t) == "InCoercer" {
+							noCoercer = true
+						}
+						if v, eq, ok := nilCmp(normGuard(g).cond); ok && eq == normGuard(g).val {
+							if ex, ok := v.(*ssa.Extract); ok {
+								if ta, ok := ex.Tuple.(*ssa.TypeAssert); ok && derefNamed(ta.AssertedType) == "InCoercer" {
+									noCoercer = true
+								}
+							} else if ta, ok := v.(*ssa.TypeAssert); ok && derefNamed(ta.AssertedType) == "InCoercer" {
+								noCoercer = true
+							}
+						}
+					}
+					if !noCoercer {
+						bad = "the default is stored as it was parsed from the SDL although the field's type is an InCoercer on this path"
+					}
+					continue
+				}
+				if ex, ok := lf.val.(*ssa.Extract); ok && ex.Index == 0 {
+					if call, ok := ex.Tuple.(*ssa.Call); ok {
+						if f := calleeObj(call); f != nil && f.Name() == "CoerceIn" && call.Call.IsInvoke() && len(call.Call.Args) == 1 {
+							if _, _, df, ok := loadOfField(call.Call.Args[0]); ok && df == "Default" {
+								fromDefault = true
+								recvOK := false
+								rv := call.Call.Value
+								if e2, ok := rv.(*ssa.Extract); ok {
+									rv = e2.Tuple
+								}
+								if ta, ok := rv.(*ssa.TypeAssert); ok {
+									if _, _, tf, ok := loadOfField(ta.X); ok && tf == "Type" {
+										recvOK = true
+									}
+								}
+								if !recvOK {
+									bad = "the default is coerced by something other than the declared type of the field"
+								}
+							}
+						}
+					}
+				}
+			}
+			if !fromDefault {
+				continue
+			}
+			filled = true
+			pF = in.Pos()
+			st := sinks[sink]
+			st.seen = true
+			if st.pos == token.NoPos {
+				st.pos = in.Pos()
+			}
+			if bad != "" {
+				st.bad = bad
+				st.pos = in.Pos()
 			}
 		}
 	}
 	r.check("C04.INPUT", fnName(fn)+": field defaults are filled in for absent fields", firstPos(pF, fn.Pos()), filled, "no store of f.Default under ov == nil")
+	for _, sink := range []string{"result map", "registered Go value"} {
+		st := sinks[sink]
+		if !st.seen {
+			continue
+		}
+		r.check("C04.INPUT", fnName(fn)+": the default filled into the "+sink+" is the default as coerced by the field's declared type", st.pos, st.bad == "",
+			st.bad+": for 'f: Float = 1' the resolver receives int64(1), for an enum default a Symbol, for a nested input object a map without its own defaults, and for a default that does not fit the type whatever was written")
+	}
 	// every supplied field value goes through the field type's CoerceIn
 	coerces := false
 	for _, ci := range callsIn(fn) {
